@@ -1,1 +1,371 @@
-// kani harnesses (included from /repo under cfg(kani))
+// C26: on-disk B-tree page kernels (real Page methods over real 8 KiB buffers).
+// Included from /repo/nervusdb-storage/src/index/btree.rs under cfg(kani).
+// Key layouts are concrete (1-byte keys over {1,2,3}, <= 4 cells); the probed key and payload are symbolic.
+use super::*;
+
+/// Build a leaf holding 1-byte keys `keys` (payload 100+i) with the real init_leaf + leaf_insert_at — the same calls
+/// rebuild_leaf makes (init_leaf; set_right_sibling; leaf_insert_at(i, k, v) for i in order), without heap vectors,
+/// which keeps the page image concrete for CBMC.
+fn leaf_with(buf: &mut [u8; PAGE_SIZE], keys: &[u8]) {
+    let mut page = Page::new(buf);
+    page.init_leaf();
+    let mut i = 0;
+    while i < keys.len() {
+        page.leaf_insert_at(i, &[keys[i]], 100 + i as u64).unwrap();
+        i += 1;
+    }
+}
+
+fn count_less(keys: &[u8], t: u8) -> usize {
+    let mut n = 0;
+    let mut i = 0;
+    while i < keys.len() {
+        if keys[i] < t {
+            n += 1;
+        }
+        i += 1;
+    }
+    n
+}
+
+// ------------------------------------------------------------------ O1: lower bound
+fn lower_bound_on(keys: &[u8]) {
+    let mut buf = [0u8; PAGE_SIZE];
+    leaf_with(&mut buf, keys);
+    let t: u8 = kani::any();
+    let page = Page::new(&mut buf);
+    let lb = page.leaf_lower_bound(&[t]).unwrap();
+    kani::cover!(lb > 0 && lb < keys.len(), "witness: interior position reachable");
+    assert!(lb == count_less(keys, t), "btree: lower_bound = number of cells with key < target");
+}
+macro_rules! lb {
+    ($name:ident, $keys:expr) => {
+        #[kani::proof]
+        #[kani::unwind(8)]
+        fn $name() {
+            lower_bound_on(&$keys);
+        }
+    };
+}
+lb!(c26_o1_q_lb_1223, [1u8, 2, 2, 3]);
+lb!(c26_o1_q_lb_1133, [1u8, 1, 3, 3]);
+lb!(c26_o1_q_lb_2222, [2u8, 2, 2, 2]);
+lb!(c26_o1_q_lb_123, [1u8, 2, 3]);
+
+#[kani::proof]
+#[kani::unwind(8)]
+fn c26_o1_q_lb_empty_and_single() {
+    let mut buf = [0u8; PAGE_SIZE];
+    Page::new(&mut buf).init_leaf();
+    let t: u8 = kani::any();
+    let lb0 = Page::new(&mut buf).leaf_lower_bound(&[t]).unwrap();
+    leaf_with(&mut buf, &[2u8]);
+    let lb1 = Page::new(&mut buf).leaf_lower_bound(&[t]).unwrap();
+    kani::cover!(lb1 == 1, "witness: past-the-end reachable");
+    assert!(lb0 == 0, "btree: lower_bound on an empty leaf is 0");
+    assert!(lb1 == (t > 2) as usize, "btree: lower_bound on a single-cell leaf");
+}
+
+// ------------------------------------------------------------------ O2: insert at the lower bound
+fn insert_on(keys: &[u8]) {
+    let mut buf = [0u8; PAGE_SIZE];
+    leaf_with(&mut buf, keys);
+    let t: u8 = kani::any();
+    let p: u64 = kani::any();
+    let mut page = Page::new(&mut buf);
+    let idx = page.leaf_lower_bound(&[t]).unwrap();
+    page.leaf_insert_at(idx, &[t], p).unwrap();
+    let n = keys.len();
+    let ok_count = page.cell_count() == n + 1;
+    // the new cell sits at idx (before older equal keys: newest first)
+    let (k_new, p_new) = page.leaf_cell_key_and_payload(idx).unwrap();
+    let ok_new = k_new.len() == 1 && k_new[0] == t && p_new == p;
+    // every old cell is still there, in the old relative order, keys sorted
+    let mut ok_old = true;
+    let mut ok_sorted = true;
+    let mut prev: u8 = 0;
+    let mut i = 0;
+    while i < n + 1 {
+        let (k, v) = page.leaf_cell_key_and_payload(i).unwrap();
+        ok_sorted &= k.len() == 1 && k[0] >= prev;
+        prev = k[0];
+        if i != idx {
+            let j = if i < idx { i } else { i - 1 };
+            ok_old &= k[0] == keys[j] && v == 100 + j as u64;
+        }
+        i += 1;
+    }
+    kani::cover!(idx > 0 && idx < n, "witness: interior insert reachable");
+    kani::cover!(idx < n && keys[if idx < n { idx } else { 0 }] == t, "witness: duplicate key insert reachable");
+    assert!(ok_count, "btree: insert adds exactly one cell");
+    assert!(ok_new, "btree: the inserted pair is stored at its lower bound (newest first among equal keys)");
+    assert!(ok_old, "btree: insert keeps every other pair and their order");
+    assert!(ok_sorted, "btree: leaf keys stay sorted");
+}
+macro_rules! ins {
+    ($name:ident, $keys:expr) => {
+        #[kani::proof]
+        #[kani::unwind(8)]
+        fn $name() {
+            insert_on(&$keys);
+        }
+    };
+}
+ins!(c26_o2_q_ins_123, [1u8, 2, 3]);
+ins!(c26_o2_q_ins_22, [2u8, 2]);
+ins!(c26_o2_t_ins_1223, [1u8, 2, 2, 3]);
+
+// ------------------------------------------------------------------ O3: varint
+#[kani::proof]
+#[kani::unwind(7)]
+fn c26_o3_q_varint_roundtrip() {
+    let v: u32 = kani::any();
+    let mut out = [0u8; 8];
+    let n = write_varint_u32(v, &mut out);
+    let r = read_varint_u32(&out);
+    kani::cover!(v >= (1 << 28), "witness: 5-byte varint reachable");
+    assert!(n == varint_u32_len(v), "varint: written length equals varint_u32_len");
+    assert!(r == Some((v, n)), "varint: read(write(v)) == v");
+}
+
+// ------------------------------------------------------------------ O6: delete_from_leaf removes exactly one cell
+fn delete_on(keys: &[u8]) {
+    let mut buf = [0u8; PAGE_SIZE];
+    leaf_with(&mut buf, keys);
+    let n = keys.len();
+    let idx: usize = kani::any();
+    kani::assume(idx < n);
+    let mut page = Page::new(&mut buf);
+    page.delete_from_leaf(idx).unwrap();
+    let ok_count = page.cell_count() == n - 1;
+    let mut ok_rest = true;
+    let mut i = 0;
+    while i < n - 1 {
+        let (k, v) = page.leaf_cell_key_and_payload(i).unwrap();
+        let j = if i < idx { i } else { i + 1 };
+        ok_rest &= k.len() == 1 && k[0] == keys[j] && v == 100 + j as u64;
+        i += 1;
+    }
+    kani::cover!(idx > 0 && idx + 1 < n, "witness: interior delete reachable");
+    assert!(ok_count, "btree: delete removes exactly one cell");
+    assert!(ok_rest, "btree: delete keeps every other pair and their order");
+}
+#[kani::proof]
+#[kani::unwind(8)]
+fn c26_o6_q_delete_from_leaf_1223() {
+    delete_on(&[1u8, 2, 2, 3]);
+}
+
+// ------------------------------------------------------------------ O4: descent after a split
+/// Two-level tree built with the real rebuild_leaf/rebuild_internal exactly as BTree::insert's split does:
+/// entries sorted, left = e[..mid], right = e[mid..], separator = right[0].key.
+/// Obligation: internal_child_for_key(t) leads to the leaf that holds the first entry >= t (what
+/// cursor_lower_bound and the next insert/delete of key t rely on).
+fn descent_on(all: &[u8], in_left_expected: fn(u8) -> bool) {
+    let mid = all.len() / 2;
+    let sep = all[mid];
+    let mut root = [0u8; PAGE_SIZE];
+    {
+        // what rebuild_internal does for one cell: init_internal(leftmost); internal_insert_at(0, sep, right)
+        let mut r = Page::new(&mut root);
+        r.init_internal(PageId::new(10));
+        r.internal_insert_at(0, &[sep], PageId::new(11)).unwrap();
+    }
+    let t: u8 = kani::any();
+    let (child, _pos) = Page::new(&mut root).internal_child_for_key(&[t]).unwrap();
+    let goes_left = child.as_u64() == 10;
+    kani::cover!(goes_left, "witness: left descent reachable");
+    kani::cover!(!goes_left, "witness: right descent reachable");
+    assert!(child.as_u64() == 10 || child.as_u64() == 11, "btree: descent returns one of the two children");
+    assert!(goes_left == in_left_expected(t), "btree: descent reaches the leaf holding the first entry >= target");
+}
+
+/// distinct keys: separator 3, left [1,2], right [3,4]
+#[kani::proof]
+#[kani::unwind(8)]
+fn c26_o4_q_descent_distinct_keys() {
+    fn left(t: u8) -> bool {
+        t <= 2
+    }
+    descent_on(&[1u8, 2, 3, 4], left);
+}
+
+/// duplicates straddling the split: [1,2 | 2,3], separator 2 — the first entry >= 2 is in the LEFT leaf
+/// (known finding on the pinned commit: the descent goes right for t == separator)
+#[kani::proof]
+#[kani::unwind(8)]
+fn c26_o4_q_descent_duplicates_straddle_split() {
+    fn left(t: u8) -> bool {
+        t <= 2
+    }
+    descent_on(&[1u8, 2, 2, 3], left);
+}
+
+/// complement of the finding: for targets different from the separator the descent is right
+#[kani::proof]
+#[kani::unwind(8)]
+fn c26_o4_q_descent_duplicates_other_targets() {
+    let mut root = [0u8; PAGE_SIZE];
+    {
+        let mut r = Page::new(&mut root);
+        r.init_internal(PageId::new(10));
+        r.internal_insert_at(0, &[2u8], PageId::new(11)).unwrap();
+    }
+    let t: u8 = kani::any();
+    kani::assume(t != 2);
+    let (child, _pos) = Page::new(&mut root).internal_child_for_key(&[t]).unwrap();
+    kani::cover!(child.as_u64() == 10, "witness: left descent reachable");
+    kani::cover!(child.as_u64() == 11, "witness: right descent reachable");
+    assert!((child.as_u64() == 10) == (t < 2), "btree: descent for targets other than the separator");
+}
+
+// ------------------------------------------------------------------ O5: BTree::delete on a single-leaf tree
+static mut PAGE0: [u8; PAGE_SIZE] = [0u8; PAGE_SIZE];
+fn stub_read_page(_p: &Pager, _id: PageId) -> Result<[u8; PAGE_SIZE]> {
+    Ok(unsafe { PAGE0 })
+}
+fn stub_write_page(_p: &mut Pager, _id: PageId, page: &[u8; PAGE_SIZE]) -> Result<()> {
+    unsafe {
+        PAGE0 = *page;
+    }
+    Ok(())
+}
+fn fake_pager() -> &'static mut Pager {
+    // never dereferenced: read_page / write_page are stubbed in the harnesses below
+    let layout = std::alloc::Layout::new::<Pager>();
+    unsafe { &mut *(std::alloc::alloc(layout) as *mut Pager) }
+}
+
+/// two pairs with the SAME key, inserted through the real insert path (lower bound => newest first);
+/// deleting either stored pair must find it and remove exactly that pair.
+fn delete_equal_keys(p_old: u64, p_new: u64, delete_new: bool) {
+    let mut buf = [0u8; PAGE_SIZE];
+    {
+        let mut page = Page::new(&mut buf);
+        page.init_leaf();
+        let i0 = page.leaf_lower_bound(&[7u8]).unwrap();
+        page.leaf_insert_at(i0, &[7u8], p_old).unwrap();
+        let i1 = page.leaf_lower_bound(&[7u8]).unwrap();
+        page.leaf_insert_at(i1, &[7u8], p_new).unwrap();
+    }
+    unsafe {
+        PAGE0 = buf;
+    }
+    let mut tree = BTree::load(PageId::new(5));
+    let victim = if delete_new { p_new } else { p_old };
+    let survivor = if delete_new { p_old } else { p_new };
+    let r = tree.delete(fake_pager(), &[7u8], victim);
+    let found = matches!(r, Ok(true));
+    std::mem::forget(r);
+    let mut after = unsafe { PAGE0 };
+    let page = Page::new(&mut after);
+    let left_one = page.cell_count() == 1;
+    let survivor_ok = left_one && matches!(page.leaf_cell_key_and_payload(0), Ok((k, v)) if k.len() == 1 && k[0] == 7 && v == survivor);
+    kani::cover!(true, "witness: reached");
+    assert!(found, "btree: deleting a stored (key,payload) pair finds it");
+    assert!(survivor_ok, "btree: delete removes exactly that pair");
+}
+
+/// payloads inserted in increasing order (the common case: growing node ids) — known finding on the pinned commit.
+/// Quick tier: concrete payloads (10 then 20), the pair to delete is symbolic.
+#[kani::proof]
+#[kani::unwind(8)]
+#[kani::stub(Pager::read_page, stub_read_page)]
+#[kani::stub(Pager::write_page, stub_write_page)]
+fn c26_o5_q_delete_equal_keys_increasing_payloads() {
+    delete_equal_keys(10, 20, kani::any());
+}
+
+/// complement: payloads inserted in decreasing order are stored in ascending (key,payload) order — must pass
+#[kani::proof]
+#[kani::unwind(8)]
+#[kani::stub(Pager::read_page, stub_read_page)]
+#[kani::stub(Pager::write_page, stub_write_page)]
+fn c26_o5_q_delete_equal_keys_decreasing_payloads() {
+    delete_equal_keys(20, 10, kani::any());
+}
+
+/// thorough: symbolic payloads
+#[kani::proof]
+#[kani::unwind(8)]
+#[kani::stub(Pager::read_page, stub_read_page)]
+#[kani::stub(Pager::write_page, stub_write_page)]
+fn c26_o5_a_delete_equal_keys_increasing_payloads_symbolic() {
+    let a: u64 = kani::any();
+    let b: u64 = kani::any();
+    kani::assume(a < b);
+    delete_equal_keys(a, b, kani::any());
+}
+#[kani::proof]
+#[kani::unwind(8)]
+#[kani::stub(Pager::read_page, stub_read_page)]
+#[kani::stub(Pager::write_page, stub_write_page)]
+fn c26_o5_a_delete_equal_keys_decreasing_payloads_symbolic() {
+    let a: u64 = kani::any();
+    let b: u64 = kani::any();
+    kani::assume(a > b);
+    delete_equal_keys(a, b, kani::any());
+}
+
+/// distinct keys: delete finds and removes exactly the pair — must pass
+#[kani::proof]
+#[kani::unwind(8)]
+#[kani::stub(Pager::read_page, stub_read_page)]
+#[kani::stub(Pager::write_page, stub_write_page)]
+fn c26_o5_q_delete_distinct_keys() {
+    let mut buf = [0u8; PAGE_SIZE];
+    leaf_with(&mut buf, &[1u8, 2, 3]);
+    unsafe {
+        PAGE0 = buf;
+    }
+    let mut tree = BTree::load(PageId::new(5));
+    let which: u8 = kani::any();
+    kani::assume(which >= 1 && which <= 3);
+    let r = tree.delete(fake_pager(), &[which], 100 + (which as u64 - 1));
+    let found = matches!(r, Ok(true));
+    std::mem::forget(r);
+    let r2 = tree.delete(fake_pager(), &[which], 999);
+    let not_found = matches!(r2, Ok(false));
+    std::mem::forget(r2);
+    let mut after = unsafe { PAGE0 };
+    let page = Page::new(&mut after);
+    let ok_count = page.cell_count() == 2;
+    kani::cover!(which == 2, "witness: interior key reachable");
+    assert!(found, "btree: deleting a stored (key,payload) pair finds it");
+    assert!(not_found, "btree: deleting an absent pair reports false and changes nothing");
+    assert!(ok_count, "btree: delete removes exactly that pair");
+}
+
+// ------------------------------------------------------------------ O7: the direct construction equals rebuild_*()
+/// thorough: rebuild_leaf(entries) yields byte-for-byte the page that leaf_with() builds (so the quick harnesses above
+/// run on exactly the page images BTree::insert's split writes)
+#[kani::proof]
+#[kani::unwind(8)]
+fn c26_o7_a_rebuild_leaf_equals_direct_construction() {
+    let mut a = [0u8; PAGE_SIZE];
+    let mut b = [0u8; PAGE_SIZE];
+    leaf_with(&mut a, &[1u8, 2]);
+    let e = vec![(vec![1u8], 100u64), (vec![2u8], 101u64)];
+    Page::new(&mut b).rebuild_leaf(PageId::new(0), &e);
+    std::mem::forget(e);
+    let i: usize = kani::any();
+    kani::assume(i < PAGE_SIZE);
+    kani::cover!(true, "witness: reached");
+    assert!(a[i] == b[i], "btree: rebuild_leaf equals init_leaf + leaf_insert_at in order");
+}
+
+#[kani::proof]
+#[kani::unwind(6)]
+fn c26_o9_a_probe_style() {
+    let mut buf = [0u8; PAGE_SIZE];
+    let mut p = Page::new(&mut buf);
+    p.init_leaf();
+    p.leaf_insert_at(0, &[1], 100).unwrap();
+    p.leaf_insert_at(1, &[2], 101).unwrap();
+    p.leaf_insert_at(2, &[3], 102).unwrap();
+    let t: u8 = kani::any();
+    let i = p.leaf_lower_bound(&[t]).unwrap();
+    let expect = (1 < t) as usize + (2 < t) as usize + (3 < t) as usize;
+    kani::cover!(true, "witness: reached");
+    assert!(i == expect, "btree: lower_bound = number of cells with key < target");
+}
